@@ -328,3 +328,10 @@ def anyhow_fmt(I, a, n):
 def toml_to_string(I, a, n):
     # stub: the serialised text is opaque (TOML serialisation is outside every claim)
     return OK(S("# toml\n"))
+
+
+@model(r"^ignore::DirEntry::path$|^ignore::walk::DirEntry::path$")
+def direntry_path(I, a, n):
+    """ignore::DirEntry is modelled as an opaque value carrying its path"""
+    v = unbox(a[0])
+    return v.data
